@@ -30,7 +30,7 @@ void vp_harness(void) {
 		__CPROVER_assert(g_add_booster == ((g_uid.class_id & 2) ? 1u : 0u) && g_add_to == ((g_uid.class_id & 16) ? 1u : 0u), "C14.board.booster_and_track_output_registered_from_the_unique_id_class_bits");
 		__CPROVER_assert(!g_added.connected && g_added.node_addr.top == 0 && g_added.node_addr.sub == 0 && g_added.node_addr.subsub == 0, "C15.board.configured_board_starts_disconnected");
 		/* C19: Secure-ACK is on iff SOME listed feature 0x03 has a value > 0, wherever it stands in the list */
-		_Bool want = 0; for (guint k = 0; k < 2; k++) if (k < g_added.features->len) { t_bidib_board_feature *f = &g_array_index(g_added.features, t_bidib_board_feature, k); if (f->number == 0x03 && f->value > 0) want = 1; }
+		_Bool want = 0; for (guint k = 0; k < 4; k++) if (k < g_added.features->len) { t_bidib_board_feature *f = &g_array_index(g_added.features, t_bidib_board_feature, k); if (f->number == 0x03 && f->value > 0) want = 1; }
 		__CPROVER_assert(g_added.secack_on == want, "C19.board.secack_on_iff_feature_0x03_is_listed_with_a_value_above_0_at_any_position");
 	}
 }
